@@ -151,7 +151,7 @@ def validate_scenarios(run, scenarios, replies, procs, name="trace"):
     """Trace validation, sharded on scenario boundaries.  Returns {scenario index: stage}."""
     per = [events_of(sc, rp) for sc, rp in zip(scenarios, replies)]
     total = sum(len(e) for e in per)
-    nshards = 1 if total < 40000 else procs * (total // (procs * 300000) + 1)
+    nshards = 1 if total < 2000 else procs * (total // (procs * 300000) + 1)
     target = total / nshards
     shards, cur, cur_n = [], [], 0
     for i, evs in enumerate(per):
